@@ -1,5 +1,5 @@
 // Replay enumerator for the SSE decoder (chunking invariance) and the frame mapper: real function text, plain rustc.
-//@@ include prelude/kernel_model_plain.rs
+//@@ include prelude/kernel_model_plain_json.rs
 pub struct Uuid;
 impl Uuid { pub fn new_v4() -> Uuid { Uuid } }
 impl std::fmt::Display for Uuid { fn fmt(&self, f: &mut std::fmt::Formatter<'_>) -> std::fmt::Result { write!(f, "id") } }
@@ -15,13 +15,16 @@ impl ParsedEvent {
     //@@ end
     //@@ fn crates/rip-provider-openresponses/src/lib.rs ParsedEvent::invalid_json
     //@@ end
-    // schema validation is out of scope here: a JSON payload is kept as data without errors
-    fn event(raw: String, event: Option<String>, data: Value, _validation: ValidationOptions) -> Self {
-        Self { kind: ParsedEventKind::Event, event, raw, data: Some(data), errors: Vec::new(), response_errors: Vec::new() }
-    }
+    //@@ fn crates/rip-provider-openresponses/src/lib.rs ParsedEvent::event
+    //@@ end
 }
+// schema validation itself is out of scope here (JSON-schema engine): it accepts everything; compat normalisation is a stand-in that,
+// like the real one, returns a CHANGED copy (an injected id), so that a payload taken from the wrong copy shows
+fn normalize_event_for_validation(v: &Value) -> Value { let mut m = match v { Value::Object(m) => m.clone(), _ => std::collections::BTreeMap::new() }; m.insert("item_id".to_string(), Value::String("item_0".to_string())); Value::Object(m) }
+fn validate_stream_event(_v: &Value) -> Result<(), Vec<String>> { Ok(()) }
+fn validate_response_resource(_v: &Value) -> Result<(), Vec<String>> { Err(vec!["response resource not validated in this stand-in".to_string()]) }
 // stand-in JSON parser: an object literal is valid JSON, anything else is not
-pub mod json { pub fn from_str_value(s: &str) -> Result<super::Value, String> { if s.starts_with('{') && s.ends_with('}') { Ok(super::Value { filler: 0 }) } else { Err("not json".to_string()) } } }
+pub mod json { pub fn from_str_value(s: &str) -> Result<super::Value, String> { if s.starts_with('{') && s.ends_with('}') { let mut m = std::collections::BTreeMap::new(); m.insert("raw".to_string(), super::Value::String(s.to_string())); if s.contains("resp") { m.insert("response".to_string(), super::Value::Null); } Ok(super::Value::Object(m)) } else { Err("not json".to_string()) } } }
 //@@ item crates/rip-provider-openresponses/src/lib.rs struct SseDecoder dropderive=Default
 impl SseDecoder {
     //@@ fn crates/rip-provider-openresponses/src/lib.rs SseDecoder::new
@@ -51,11 +54,22 @@ impl EventFrameMapper {
     //@@ fn crates/rip-provider-openresponses/src/lib.rs EventFrameMapper::emit
     //@@ end
 }
+fn payload_clause() {
+    for compat in [false, true] { for raw in ["{\"a\":1}", "{\"type\":\"x\",\"resp\":1}"] { for name in [None, Some("x".to_string())] {
+        let data = json::from_str_value(raw).unwrap();
+        let pe = ParsedEvent::event(raw.to_string(), name.clone(), data.clone(), ValidationOptions { normalize_missing_item_ids: compat });
+        if pe.data != Some(data.clone()) || pe.raw != raw || pe.event != name || !matches!(pe.kind, ParsedEventKind::Event) {
+            println!("WITNESS {{\"function\": \"ParsedEvent::event\", \"payload\": {:?}, \"compat_normalisation\": {}, \"kept_data\": {:?}, \"parsed_data\": {:?}, \"problem\": \"the event does not carry the payload the provider sent\"}}", raw, compat, format!("{:?}", pe.data), format!("{:?}", data));
+            std::process::exit(0);
+        }
+    } } }
+}
 fn mapper_clauses() {
+    payload_clause();
     // every sequence of <= 4 parsed events over {event, event with text delta, invalid JSON, done}
     let mk = |k: u8, i: usize| match k {
-        0 => ParsedEvent { kind: ParsedEventKind::Event, event: Some(format!("ev{i}")), raw: format!("{{\"n\":{i}}}"), data: Some(Value { filler: 0 }), errors: vec![], response_errors: vec![] },
-        1 => ParsedEvent { kind: ParsedEventKind::Event, event: None, raw: format!("t:delta{i}"), data: Some(Value { filler: 0 }), errors: vec![], response_errors: vec![] },
+        0 => ParsedEvent { kind: ParsedEventKind::Event, event: Some(format!("ev{i}")), raw: format!("{{\"n\":{i}}}"), data: Some(Value::Null), errors: vec![], response_errors: vec![] },
+        1 => ParsedEvent { kind: ParsedEventKind::Event, event: None, raw: format!("t:delta{i}"), data: Some(Value::Null), errors: vec![], response_errors: vec![] },
         2 => ParsedEvent { kind: ParsedEventKind::InvalidJson, event: None, raw: format!("oops{i}"), data: None, errors: vec!["bad".to_string()], response_errors: vec![] },
         _ => ParsedEvent { kind: ParsedEventKind::Done, event: None, raw: "[DONE]".to_string(), data: None, errors: vec![], response_errors: vec![] },
     };
